@@ -56,8 +56,8 @@ impl Table {
     pub fn unchars(&self, t: &str) -> Value {
         let mut out = vec![]; let mut rest = t;
         while !rest.is_empty() {
-            // (the decoded form of the escaped slash that `request_bytes` puts between the two characters of a param value: no character of its own)
-            if let Some(r) = rest.strip_prefix('/') { rest = r; continue }
+            // (a slash inside a param value is the decoded form of the escaped slash, the abstract character "%")
+            if let Some(r) = rest.strip_prefix('/') { out.push("%"); rest = r; continue }
             if rest.starts_with(self.a) { out.push("a"); rest = &rest[self.a.len()..] }
             else if rest.starts_with(self.b) { out.push("b"); rest = &rest[self.b.len()..] }
             else if rest.starts_with('-') { out.push("-"); rest = &rest[1..] }
@@ -141,12 +141,9 @@ pub fn build_app(apps: &[Value], idx: usize, t: &Table, early: i64, pbase: usize
 
 pub fn request_bytes(req: &Value, t: &Table) -> Vec<u8> {
     let mut p = String::new();
-    // a segment that only a `:param` can take (the instance value `bb` of the generators) is sometimes written with an escaped slash in the
-    // middle, `b%2Fb`: one segment to the router (and to every fang scope), `b/b` to the handler that reads the param
-    let esc = match (t.a.len() + arr(&req["path"]).len()) % 3 { 1 => Some("%2F"), 2 => Some("%2f"), _ => None };
-    for sg in arr(&req["path"]) { p.push('/');
-        let cs = arr(sg);
-        if let (Some(e), true) = (esc, cs.len() == 2 && s(&cs[0]) == "b" && s(&cs[1]) == "b") { p.push_str(t.b); p.push_str(e); p.push_str(t.b) } else { p.push_str(&t.chars(sg)) } }
+    // (the abstract character "%" is an escaped slash inside a segment, `%2F` or `%2f`)
+    let esc = if (t.a.len() + arr(&req["path"]).len()) % 2 == 0 { "%2F" } else { "%2f" };
+    for sg in arr(&req["path"]) { p.push('/'); p.push_str(&t.chars(sg).replace('%', esc)) }
     for _ in 0..i(&req["trailing"]) { p.push('/') }
     if p.is_empty() { p.push('/') }
     // some requests carry a query (with `?` and `/` inside it, which belong to the query): the path is what stands before the FIRST `?`
@@ -265,10 +262,11 @@ pub fn gen(rng: &mut Rng, idx: usize) -> Value {
     let mut reqs = vec![];
     let methods: &[&str] = if c04 { &["GET", "POST", "HEAD", "PUT", "DELETE", "OPTIONS"] } else { &["GET", "POST", "HEAD", "PUT", "DELETE"] };
     for f in &fulls {
-        for w in [vec!["a"], vec!["b", "b"], vec!["a", "b"]] {
+        for w in [vec!["a"], vec!["b", "b"], vec!["a", "b"], vec!["b", "%", "b"]] {
             let inst: Vec<Vec<&str>> = f.iter().map(|sg| if s(&sg["k"]) == "S" { arr(&sg["s"]).iter().map(s).collect() } else { w.clone() }).collect();
             let mut variants = vec![inst.clone()];
             let mut x = inst.clone(); x.push(vec!["a"]); variants.push(x);
+            if inst.len() >= 2 { let k = rng.below(inst.len() - 1); let mut x = inst.clone(); let nxt = x.remove(k + 1); x[k].push("%"); x[k].extend(nxt); variants.push(x) }   // two segments joined by an escaped slash
             if !inst.is_empty() { let mut x = inst.clone(); x.pop(); variants.push(x);
                 let k = rng.below(inst.len()); let mut x = inst.clone(); x[k].push("a"); variants.push(x);
                 let mut x = inst.clone(); x[k].pop(); variants.push(x); }
